@@ -16,18 +16,15 @@ def seeded(seed, n):
         pts = []
         x, y = r.randrange(grid), r.randrange(grid)
         if mode in ("zigzag", "spiral"):
-            # shapes whose farthest point always lies near one end of the pending interval: the interval stack grows as
-            # deep as the line is long (a decaying zig-zag, an inward spiral)
-            import math
-            cnt = r.choice([18, 19, 33, 34, 35, 64, 65, 130, 200])
-            big = 1 << r.choice([8, 12, 16])
+            # shapes whose farthest point always lies near one end of the pending interval, so that the interval stack grows
+            # as deep as the line is long: a zig-zag whose teeth shrink by one unit each, and a staircase of shrinking steps
+            # (ordinates stay below 64: cross products squared must fit TLC's 32-bit integers)
+            cnt = r.choice([18, 19, 20, 33, 34, 35, 40, 60])
             for k in range(cnt):
                 if mode == "zigzag":
-                    amp = big >> min(k // 2, 30) if r.randrange(2) else max(1, big // (k + 1))
-                    pts.append([k * 3, amp if k % 2 else -amp])
+                    pts.append([k, (cnt - k) if k % 2 else -(cnt - k)])
                 else:
-                    rad = big * (cnt - k) / cnt
-                    pts.append([int(rad * math.cos(k * 0.9)), int(rad * math.sin(k * 0.9))])
+                    pts.append([k, ((cnt - k) * (cnt - k)) // cnt if k % 2 else 0])
             if r.randrange(2):
                 pts.reverse()
             cnt = 0
@@ -42,6 +39,8 @@ def seeded(seed, n):
         if mode == "loop" and pts:
             pts.append(pts[0][:])
         ox, oy = r.choice([(0, 0), (-grid, -grid), (-3 * grid, 2), (r.randrange(-grid, 1), r.randrange(-grid, 1))])
+        if mode in ("zigzag", "spiral"):
+            ox, oy = r.choice([(0, 0), (-30, -5)])             # (keeps every ordinate below 64 in magnitude)
         pts = [[x + ox, y + oy] for x, y in pts]                  # anywhere in the plane
         thrs = [[0, 1], [1, 2], [1, 1], [3, 2], [2, 1], [5, 1], [1, 4]]
         if grid <= 12:
